@@ -112,6 +112,55 @@ theorem C04.force (s : State) (clock : Int) (order raises : List Nat)
   simp only [out, execJobs, hord, if_true]
   rw [hperm.length_eq]
 
+/-- the Bool twin evaluated by the driver on what the implementation invoked **is** the statement
+    of `due_exactly` (each once, exactly the due jobs of positive weight, only known jobs, count) -/
+theorem C04.twin_iff (clock : Int) (jobs : List (Nat × Int × Rat)) (inv : List Nat) (ret : Nat) :
+    c04SpecB clock jobs inv ret = true ↔
+      (inv.Nodup ∧ (∀ j ∈ jobs, j.1 ∈ inv ↔ (0 < j.2.2 ∧ j.2.1 ≤ clock)) ∧
+       (∀ k ∈ inv, ∃ j ∈ jobs, j.1 = k) ∧ ret = inv.length) := by
+  unfold c04SpecB
+  simp only [Bool.and_eq_true, nodupB_iff, List.all_eq_true, List.any_eq_true, beq_iff_eq]
+  constructor
+  · rintro ⟨⟨⟨h1, h2⟩, h3⟩, h4⟩
+    refine ⟨h1, ?_, ?_, h4⟩
+    · intro j hj
+      have := h2 j hj
+      rw [← List.contains_iff_mem, this]
+      simp
+    · intro k hk
+      obtain ⟨j, hj, e⟩ := h3 k hk
+      exact ⟨j, hj, e⟩
+  · rintro ⟨h1, h2, h3, h4⟩
+    refine ⟨⟨⟨h1, ?_⟩, ?_⟩, h4⟩
+    · intro j hj
+      have := h2 j hj
+      by_cases hm : j.1 ∈ inv
+      · have h' := this.mp hm
+        simp [hm, h'.1, h'.2]
+      · have h' : ¬ (0 < j.2.2 ∧ j.2.1 ≤ clock) := fun c => hm (this.mpr c)
+        have : (decide (0 < j.2.2) && decide (j.2.1 ≤ clock)) = false := by
+          simp only [Bool.and_eq_false_iff, decide_eq_false_iff_not]
+          by_cases h0 : 0 < j.2.2
+          · right; exact fun c => h' ⟨h0, c⟩
+          · left; exact h0
+        rw [this]
+        simpa using hm
+    · intro k hk
+      obtain ⟨j, hj, e⟩ := h3 k hk
+      exact ⟨j, hj, e⟩
+
+/-- the forced twin: every registered job exactly once and the count -/
+theorem C04.force_twin_iff (reg inv : List Nat) (ret : Nat) :
+    forceSpecB reg inv ret = true ↔
+      (inv.Nodup ∧ (∀ k, k ∈ reg ↔ k ∈ inv) ∧ ret = reg.length ∧ inv.length = reg.length) := by
+  unfold forceSpecB
+  simp only [Bool.and_eq_true, nodupB_iff, List.all_eq_true, beq_iff_eq, List.contains_iff_mem]
+  constructor
+  · rintro ⟨⟨⟨⟨h1, h2⟩, h3⟩, h4⟩, h5⟩
+    exact ⟨h1, fun k => ⟨h2 k, h3 k⟩, h4, h5⟩
+  · rintro ⟨h1, h2, h4, h5⟩
+    exact ⟨⟨⟨⟨h1, fun k hk => (h2 k).mp hk⟩, fun k hk => (h2 k).mpr hk⟩, h4⟩, h5⟩
+
 /-! non-vacuity: a registry of two existing jobs satisfies the hypotheses -/
 example : ∃ s : State, s.reg.Nodup ∧ s.reg ≠ [] ∧ (∀ k ∈ s.reg, k < s.heap.length) ∧ s.maxExec = 0 ∧ s.prio = .linear :=
   ⟨{ tz := none, maxExec := 0, prio := .linear, heap := [default, default], reg := [0, 1] },
